@@ -4,6 +4,10 @@ from rules import hayson, fields
 
 def check(ctx):
     rep = ctx.rep
+    from rules import tz as _tz
+    _tz.check_utc_guard(ctx, rep)
+    hayson.check_member_loop(ctx, rep)
+    nic = hayson.check_int_casts(ctx, rep)
     n = hayson.check_tables(ctx, rep, with_spec=False)
     rep.floor("tagged Hayson kinds compared (writer table vs reader table)", n, 13)
     nc = hayson.check_casts(ctx, rep)
